@@ -1306,6 +1306,7 @@ func (g *gen) genPool(n int) {
 		g.emit("RESET")
 		g.emit("NOTE case=pool")
 		m := 2 + g.r.Intn(4)
+		var wills []string
 		kinds := make([]string, m)
 		for i := 0; i < m; i++ {
 			kinds[i] = kindNames[g.r.Intn(len(kindNames))]
@@ -1319,6 +1320,14 @@ func (g *gen) genPool(n int) {
 				kinds[i] = "Subscribe"
 			}
 			g.emit("NEW s%d %s", i, kinds[i])
+			if kinds[i] == "Connect" && g.chance(0.5) {
+				// a will message the caller keeps a pointer to: decoding into the CONNECT afterwards must not write through it
+				wills = append(wills, fmt.Sprintf("w%d", i))
+				g.emit("NEW w%d Publish", i)
+				g.emit("SET w%d SetTopicName %s", i, hxd(g.nonEmpty()))
+				g.emit("SET w%d SetPayload %s", i, hxd(g.smallBytes()))
+				g.emit("SET s%d SetWill w%d", i, i)
+			}
 		}
 		steps := 3 + g.r.Intn(10)
 		for s := 0; s < steps; s++ {
@@ -1341,6 +1350,8 @@ func (g *gen) genPool(n int) {
 							qos = 2
 						}
 						g.emit("SET %s SetQoS %d", slot, qos)
+					} else if kinds[i] == "Connect" && g.chance(0.5) {
+						// into the value as it is (it may hold a will the caller still has a pointer to)
 					} else {
 						g.emit("NEW %s %s", slot, kinds[i])
 					}
@@ -1412,6 +1423,10 @@ func (g *gen) genPool(n int) {
 			for j := 0; j < m; j++ {
 				g.emit("VIEW s%d", j)
 				g.emit("ENC s%d", j)
+			}
+			for _, w := range wills {
+				g.emit("VIEW %s", w)
+				g.emit("ENC %s", w)
 			}
 		}
 	}
